@@ -51,6 +51,65 @@ mut("T12", P, "static const KSI_Rule suitablePubMissing_pubFile[] = {\n\t{KSI_RU
     "static const KSI_Rule suitablePubMissing_pubFile[] = {\n",
     "hb_anchor.pubfile", "publications-file policy extends even though the file has (another hash for) the signature's publication time: PUB-05 masked")
 
+# ---- rule code (per-rule harnesses) ----
+F = "src/ksi/publicationsfile.c"
+mut("R1", V, "\tif (!KSI_Integer_equals(respReqId, reqReqId)) {\n\t\tKSI_pushError(ctx, res = KSI_INVALID_ARGUMENT, \"Request id's mismatch.\");",
+    "\tif (0) {\n\t\tKSI_pushError(ctx, res = KSI_INVALID_ARGUMENT, \"Request id's mismatch.\");",
+    "h_ext.head_nocal,h_ext.up_cal", "request-id check removed from receiveCalendarHashChain")
+mut("R2", V, "\tif (status != NULL && !KSI_Integer_equalsUInt(status, 0)) {\n\t\tKSI_Utf8String *errorMsg = NULL;\n\t\tres = KSI_ExtendResp_getErrorMsg(resp, &errorMsg);",
+    "\tif (0) {\n\t\tKSI_Utf8String *errorMsg = NULL;\n\t\tres = KSI_ExtendResp_getErrorMsg(resp, &errorMsg);",
+    "h_ext.head_nocal", "extender status code ignored in receiveCalendarHashChain")
+mut("R3", V, "if (KSI_Integer_getUInt64(calTime) < notBefore || notAfter < KSI_Integer_getUInt64(calTime)) {", "if (KSI_Integer_getUInt64(calTime) <= notBefore || notAfter < KSI_Integer_getUInt64(calTime)) {",
+    "h_key.valid_c1", "KEY-03 window: notBefore bound made exclusive")
+mut("R4", V, "if (KSI_Integer_getUInt64(calTime) < notBefore || notAfter < KSI_Integer_getUInt64(calTime)) {", "if (KSI_Integer_getUInt64(calTime) < notBefore || notAfter <= KSI_Integer_getUInt64(calTime)) {",
+    "h_key.valid_c1", "KEY-03 window: notAfter bound made exclusive")
+mut("R5", V, "\tif (info->extendingAllowed == 0) {", "\tif (0) {",
+    "h_user.nocal_up1", "extendingAllowed test dropped inside the extending-permitted rule")
+mut("R6", V, "\tif (!KSI_DataHash_equals(sigPubHash, usrPubHash)) {", "\tif (0 && !KSI_DataHash_equals(sigPubHash, usrPubHash)) {",
+    "h_user.cal_pub_up1_same32", "user publication hash not compared (PUB-04 never raised)")
+mut("R7", F, "\t\t\tif (imprint != NULL && !KSI_DataHash_equals(pr->publishedData->imprint, imprint)) {", "\t\t\tif (0) {",
+    "h_pubfile.n1_pub,h_pubfile.n2_pub", "publications file lookup compares the publication time but not the hash")
+mut("R8", F, "\t\t/* Check if current publication time is after given time. */\n\t\tif (KSI_Integer_compare(pubTime, tm) <= 0) {\n\t\t\t/* Check if current publication time is before the earliest so far. */",
+    "\t\t/* Check if current publication time is after given time. */\n\t\tif (KSI_Integer_compare(pubTime, tm) < 0) {\n\t\t\t/* Check if current publication time is before the earliest so far. */",
+    "h_pubfile.n1_pub,h_ext.pf_n2_nocal", "nearest publication: a publication exactly at the signing time no longer counts")
+mut("R9", V, "\t\tif (sigRightLink == NULL && extSigRightLink == NULL) {\n\t\t\t/* Match: both chains over at same time. */", "\t\tif (sigRightLink == NULL || extSigRightLink == NULL) {\n\t\t\t/* Match: both chains over at same time. */",
+    "h_cmp.cal_rl_c2_e2_d0_1,h_cmp.cal_rl_c1_e2_d0_2", "right links: a chain that ends earlier is accepted (count not compared)")
+mut("R10", V, "\tif (KSI_Integer_compare(aggregationChain->aggregationTime, extCalTime) != 0) {", "\tif (KSI_Integer_compare(aggregationChain->aggregationTime, extCalTime) > 0) {",
+    "h_cmp.cal_ti_nocal_e1", "CAL-03: a later aggregation time in the extender chain is accepted")
+mut("R11", V, "\tif (!KSI_Integer_equals(aggrTime, extAggrTime)) {", "\tif (0) {",
+    "h_cmp.pf_ti_e1", "revert of fix fdc15f8: publications-file PUB-02 rule does not compare the aggregation time")
+mut("R12", V, "\tif (!KSI_Integer_equals(usrPubTime, extPubTime)) {", "\tif (0) {",
+    "h_cmp.up_ti_e1", "user-publication PUB-02 rule does not compare the publication time")
+mut("R13", V, "\tif (!KSI_DataHash_equals(tempData->aggregationOutputHash, calInputHash)) {\n\t\tKSI_LOG_info(ctx, \"Calendar hash chain's input hash does not match with aggregation root hash.\");",
+    "\tif (0) {\n\t\tKSI_LOG_info(ctx, \"Calendar hash chain's input hash does not match with aggregation root hash.\");",
+    "h_cmp.cal_ti_nocal_e1", "CAL-02: input hash of the extender chain not compared")
+mut("R14", V, "\t\tKSI_LOG_info(ctx, \"Suitable PKI certificate not found in publications file.\");\n\n\t\tVERIFICATION_RESULT_ERR(KSI_VER_RES_NA, KSI_VER_ERR_GEN_2, step);",
+    "\t\tKSI_LOG_info(ctx, \"Suitable PKI certificate not found in publications file.\");\n\n\t\tVERIFICATION_RESULT_OK(step);",
+    "h_key.exist_c2", "CertificateExistence reports OK when no certificate matches")
+mut("R15", V, "\tres = KSI_PKITruststore_verifyRawSignature(ctx, rawData, rawData_len, KSI_Utf8String_cstr(sigtype),", "\tres = KSI_PKITruststore_verifyRawSignature(ctx, rawData + 2, rawData_len - 2, KSI_Utf8String_cstr(sigtype),",
+    "h_key.sig_c1", "KEY-02: PKI signature checked over the payload only (TLV header skipped)")
+mut("R16", F, "\t\tif (KSI_OctetString_equals(cId, id)) {", "\t\tif (1) {",
+    "h_key.exist_c2,h_key.valid_c2", "certificate lookup ignores the certificate id (first certificate wins)")
+mut("R17", V, "\tif (sig->calendarChain != NULL) {\n\t\tres = KSI_CalendarHashChain_getAggregationTime(sig->calendarChain, &startTime);", "\tif (sig->calendarChain != NULL) {\n\t\tres = KSI_CalendarHashChain_getPublicationTime(sig->calendarChain, &startTime);",
+    "h_ext.same_cal", "extension requested from the publication time instead of the aggregation time")
+mut("R18", V, "\t\tres = KSI_verifyPublicationsFile(info->ctx, tmp);\n\t\tif (res != KSI_OK) goto cleanup;\n", "",
+    "h_pubfile.n1_pub_download", "downloaded publications file used without PKI verification")
+mut("R19", V, "\tif (KSI_Integer_compare(aggregationTime, usrPubDataTime) != -1) {", "\tif (KSI_Integer_compare(aggregationTime, usrPubDataTime) == 1) {",
+    "h_user.nocal_up1", "creation-time rule accepts a signature created exactly at the user publication time")
+mut("R20", V, "\t/* Clear the available calendar in case one is attached. */\n\tif (tempData->calendarChain != NULL) {\n\t\tKSI_CalendarHashChain_free(tempData->calendarChain);\n\t\ttempData->calendarChain = NULL;\n\t}\n", "",
+    "h_ext.same_cal,h_ext.head_nochain", "stale buffered chain survives a failed extension")
+mut("R21", V, "\tif (info->userPublication == NULL ||\n\t\t\tinfo->userPublication->time == NULL || info->userPublication->imprint == NULL) {", "\tif (info->userPublication == NULL ||\n\t\t\tinfo->userPublication->time == NULL) {",
+    "h_user.cal_pub_up3", "user publication without imprint counts as supplied")
+mut("R22", V, "\tif (!KSI_DataHash_equals(rootHash, extRootHash)) {", "\tif (!KSI_DataHash_equals(rootHash, rootHash)) {",
+    "h_cmp.cal_root_c1_e1_d0_0", "CAL-01 compares the signature's root with itself")
+mut("R23", V, "\tif (!KSI_DataHash_equals(extRootHash, usrPubDataHash)) {", "\tif (0) {",
+    "h_cmp.up_hash_e1_d0", "user-publication PUB-01 rule does not compare the root with the publication hash")
+mut("R24", V, "\t\tif (!KSI_DataHash_equals(sigRightLinkHash, extSigRightLinkHash)) {", "\t\tif (0) {",
+    "h_cmp.cal_rl_c1_e1_d0_0", "right links: imprints not compared (only the count)")
+mut("R25", V, "\tres = KSI_PublicationsFile_findPublication(tempData->publicationsFile,\n\t\t\t(const KSI_PublicationRecord*)sig->publication, &pubRec);",
+    "\tres = KSI_PublicationsFile_findPublicationByTime(tempData->publicationsFile,\n\t\t\tsig->publication->publishedData->time, &pubRec);",
+    "h_pubfile.n1_pub", "PUB-05 rule looks the publication up by time only")
+
 
 def sh(cmd, **kw):
     return subprocess.run(cmd, stdout=subprocess.PIPE, stderr=subprocess.STDOUT, universal_newlines=True, **kw)
